@@ -99,6 +99,154 @@ Theorem time_truncation_refuted :
   q_round RTrunc (fmul64 (fdiv64 3 10000) 10000) = 2%Z /\ q_round RNearestEven (fmul64 (fdiv64 3 10000) 10000) = 3%Z.
 Proof. vm_compute. split; reflexivity. Qed.
 
+(** * The executable binary64 rounding [rn64] meets the standard model: |rn64 x - x| <= 2^-53 |x| for every rational
+    (no exponent range in the model: overflow and subnormal results cannot occur at the operands of the codec). *)
+Local Open Scope Q_scope.
+(** |round_he x - x| <= 1/2 *)
+Lemma q_round_he_error x : Qabs (inject_Z (q_round_he x) - x) <= 1 # 2.
+Proof.
+  pose proof (Qfloor_le x) as Hf1. pose proof (Qlt_floor x) as Hf2.
+  rewrite inject_Z_plus in Hf2. change (inject_Z 1) with 1 in Hf2.
+  unfold q_round_he. apply Qabs_Qle_condition.
+  match goal with |- context [Qcompare ?a ?b] => destruct (Qcompare_spec a b) as [C|C|C] end.
+  - destruct (Z.even (Qfloor x)); [|rewrite inject_Z_plus; change (inject_Z 1) with 1]; lra.
+  - lra.
+  - rewrite inject_Z_plus. change (inject_Z 1) with 1. lra.
+Qed.
+
+Definition tw (e : Z) : Q := if (0 <=? e)%Z then inject_Z (2 ^ e) else / inject_Z (2 ^ (- e)).
+
+Lemma pow2_pos e : (0 <= e)%Z -> (0 < 2 ^ e)%Z.
+Proof. intros. apply Z.pow_pos_nonneg; lia. Qed.
+Lemma inj_pow2_pos e : (0 <= e)%Z -> 0 < inject_Z (2 ^ e).
+Proof. intros H. change 0 with (inject_Z 0). rewrite <- Zlt_Qlt. now apply pow2_pos. Qed.
+
+Lemma tw_pos e : 0 < tw e.
+Proof.
+  unfold tw. destruct (Z.leb_spec 0 e).
+  - now apply inj_pow2_pos.
+  - apply Qinv_lt_0_compat. apply inj_pow2_pos. lia.
+Qed.
+
+Lemma tw_succ e : tw (e + 1) == 2 * tw e.
+Proof.
+  unfold tw. destruct (Z.leb_spec 0 e); destruct (Z.leb_spec 0 (e + 1)); try lia.
+  - rewrite Z.pow_add_r by lia. rewrite inject_Z_mult. change (inject_Z (2 ^ 1)) with 2. ring.
+  - assert (e = -1)%Z by lia. subst e. reflexivity.
+  - replace (- e)%Z with (- (e + 1) + 1)%Z by lia. rewrite Z.pow_add_r by lia. rewrite inject_Z_mult.
+    change (inject_Z (2 ^ 1)) with 2. pose proof (inj_pow2_pos (- (e + 1)) ltac:(lia)). field. lra.
+Qed.
+
+Lemma scaled_tw n d e : (0 < d)%Z -> scaled n d e * tw e == n # Z.to_pos d.
+Proof.
+  intros Hd. unfold scaled, tw. destruct (Z.leb_spec 0 e).
+  - pose proof (pow2_pos e H). unfold Qeq, Qmult, inject_Z. cbn [Qnum Qden].
+    rewrite Pos.mul_1_r. rewrite !Z2Pos.id by nia. ring.
+  - pose proof (inj_pow2_pos (- e) ltac:(lia)) as Hp.
+    setoid_replace (n * 2 ^ (- e) # Z.to_pos d) with ((n # Z.to_pos d) * inject_Z (2 ^ (- e))).
+    + field. lra.
+    + unfold Qeq, Qmult, inject_Z. cbn [Qnum Qden]. rewrite Pos.mul_1_r. ring.
+Qed.
+
+Definition P52 (n d e : Z) : Prop := inject_Z (2 ^ 52) <= scaled n d e.
+
+Lemma scaled_succ n d e : (0 < d)%Z -> scaled n d e == 2 * scaled n d (e + 1).
+Proof.
+  intros Hd. pose proof (scaled_tw n d e Hd) as H1. pose proof (scaled_tw n d (e + 1) Hd) as H2.
+  rewrite tw_succ in H2. pose proof (tw_pos e) as Ht.
+  assert (E : scaled n d e * tw e == (2 * scaled n d (e + 1)) * tw e) by (rewrite H1, <- H2; ring).
+  apply Qmult_inj_r in E; [exact E|lra].
+Qed.
+
+Lemma P52_step n d e : (0 < d)%Z -> (Qfloor (scaled n d e) <? 2 ^ 53)%Z = false -> P52 n d (e + 1).
+Proof.
+  intros Hd H. apply Z.ltb_ge in H. unfold P52. pose proof (Qfloor_le (scaled n d e)) as Hf.
+  rewrite Zle_Qle in H. pose proof (scaled_succ n d e Hd) as Hs.
+  assert (E : inject_Z (2 ^ 53) == 2 * inject_Z (2 ^ 52)) by reflexivity. lra.
+Qed.
+
+Lemma P52_e0 n d : (0 < n)%Z -> (0 < d)%Z -> P52 n d (Z.log2 n - Z.log2 d - 53).
+Proof.
+  intros Hn Hd. unfold P52, scaled.
+  pose proof (Z.log2_spec n Hn) as [Hn1 Hn2]. pose proof (Z.log2_spec d Hd) as [Hd1 Hd2].
+  pose proof (Z.log2_nonneg n) as Ln. pose proof (Z.log2_nonneg d) as Ld.
+  set (ln := Z.log2 n) in *. set (ld := Z.log2 d) in *.
+  destruct (Z.leb_spec 0 (ln - ld - 53)) as [He|He].
+  - pose proof (pow2_pos (ln - ld - 53) He) as Hp.
+    unfold Qle, inject_Z. cbn [Qnum Qden]. rewrite Z2Pos.id by nia.
+    assert (E : (2 ^ ln = 2 ^ 52 * 2 ^ (Z.succ ld) * 2 ^ (ln - ld - 53))%Z).
+    { rewrite <- !Z.pow_add_r by lia. f_equal. lia. }
+    nia.
+  - pose proof (pow2_pos (- (ln - ld - 53)) ltac:(lia)) as Hp.
+    unfold Qle, inject_Z. cbn [Qnum Qden]. rewrite Z2Pos.id by lia.
+    assert (E : (2 ^ ln * 2 ^ (- (ln - ld - 53)) = 2 ^ 52 * 2 ^ (Z.succ ld))%Z).
+    { rewrite <- !Z.pow_add_r by lia. f_equal. lia. }
+    nia.
+Qed.
+
+Lemma pick_P52 n d : (0 < d)%Z -> forall k e, P52 n d e -> P52 n d (pick_exp n d k e).
+Proof.
+  intros Hd. induction k as [|k IH]; intros e He; cbn [pick_exp]; [exact He|].
+  destruct (Qfloor (scaled n d e) <? 2 ^ 53)%Z eqn:E; [exact He|]. apply IH. now apply P52_step.
+Qed.
+
+Lemma rn64_pos_error n d : (0 < n)%Z -> (0 < d)%Z ->
+  Qabs (rn64_pos n d - (n # Z.to_pos d)) <= u53 * (n # Z.to_pos d).
+Proof.
+  intros Hn Hd. unfold rn64_pos.
+  set (e := pick_exp n d 3 (Z.log2 n - Z.log2 d - 53)).
+  assert (HP : P52 n d e) by (apply pick_P52; [exact Hd|now apply P52_e0]).
+  set (sc := scaled n d e) in *. set (m := q_round_he sc).
+  pose proof (scaled_tw n d e Hd) as Hx. fold sc in Hx. pose proof (tw_pos e) as Ht.
+  assert (Hres : (if (0 <=? e)%Z then inject_Z (m * 2 ^ e) else m # Z.to_pos (2 ^ (- e))) == inject_Z m * tw e).
+  { unfold tw. destruct (Z.leb_spec 0 e).
+    - now rewrite inject_Z_mult.
+    - pose proof (pow2_pos (- e) ltac:(lia)). rewrite Qmake_Qdiv. rewrite Z2Pos.id by lia. reflexivity. }
+  rewrite Hres, <- Hx.
+  setoid_replace (inject_Z m * tw e - sc * tw e) with ((inject_Z m - sc) * tw e) by ring.
+  rewrite Qabs_Qmult, (Qabs_pos (tw e)) by lra.
+  pose proof (q_round_he_error sc) as Hm. fold m in Hm. unfold P52 in HP.
+  assert (Hhalf : 1 # 2 <= u53 * sc).
+  { unfold u53. setoid_replace (1 # 2) with ((1 # 2 ^ 53) * inject_Z (2 ^ 52)) by reflexivity.
+    apply Qmult_le_l; [reflexivity|exact HP]. }
+  setoid_replace (u53 * (sc * tw e)) with ((u53 * sc) * tw e) by ring.
+  apply Qmult_le_compat_r; lra.
+Qed.
+
+Lemma rn64_error x : Qabs (rn64 x - x) <= u53 * Qabs x.
+Proof.
+  destruct x as [n d]. unfold rn64. cbn [Qnum Qden]. destruct n as [|p|p].
+  - unfold u53, Qle; cbn; lia.
+  - pose proof (rn64_pos_error (Zpos p) (Zpos d) eq_refl eq_refl) as H. cbn [Z.to_pos] in H.
+    rewrite (Qabs_pos (Zpos p # d)) by (unfold Qle; cbn; lia). exact H.
+  - pose proof (rn64_pos_error (Zpos p) (Zpos d) eq_refl eq_refl) as H. cbn [Z.to_pos] in H.
+    setoid_replace (Z.neg p # d) with (- (Zpos p # d)) by reflexivity.
+    setoid_replace (- rn64_pos (Z.pos p) (Z.pos d) - - (Z.pos p # d)) with (- (rn64_pos (Z.pos p) (Z.pos d) - (Z.pos p # d))) by ring.
+    rewrite !Qabs_opp. rewrite (Qabs_pos (Zpos p # d)) by (unfold Qle; cbn; lia). exact H.
+Qed.
+
+(** the executable binary64 operations meet the standard model at every operand *)
+Lemma fmul64_error a b : Qabs (fmul64 a b - a * b) <= u53 * Qabs (a * b).
+Proof.
+  unfold fmul64. pose proof (rn64_error (Qred (a * b))) as H. pose proof (Qred_correct (a * b)) as E.
+  set (r := Qred (a * b)) in *. now rewrite <- E.
+Qed.
+Lemma fdiv64_error a b : Qabs (fdiv64 a b - a / b) <= u53 * Qabs (a / b).
+Proof.
+  unfold fdiv64. pose proof (rn64_error (Qred (a / b))) as H. pose proof (Qred_correct (a / b)) as E.
+  set (r := Qred (a / b)) in *. now rewrite <- E.
+Qed.
+
+Theorem std_model_rn64 S : std_model_on_ticks fmul64 fdiv64 S.
+Proof. intros k _. cbv zeta. split; [apply fdiv64_error|apply fmul64_error]. Qed.
+
+(** Hence, with binary64 arithmetic as modelled by [rn64], every 32-bit tick count survives the TIME codec, for any
+    positive scale. *)
+Theorem time_ticks_exact_rn64 (S : Z) : (0 < S)%Z -> forall k, int32_ok k = true ->
+  q_round_he (fmul64 (fdiv64 (inject_Z k) (inject_Z S)) (inject_Z S)) = k.
+Proof. intros HS. exact (time_ticks_exact fmul64 fdiv64 S HS (std_model_rn64 S)). Qed.
+Local Close Scope Q_scope.
+
 (** The hypothesis is satisfiable: exact arithmetic meets it trivially, and the executable binary64 rounding [rn64]
     meets it at every tick count of a computed grid (all |k| <= 1000, powers of two and the int32 bounds). *)
 Example std_model_exact : std_model_on_ticks Qmult Qdiv 10000.
@@ -300,6 +448,16 @@ Section Codec.
       + cbn [of_fields]. rewrite floats_of_map, H16. cbn [Nat.eqb]. now rewrite mat_roundtrip.
   Qed.
 End Codec.
+
+Lemma scalar_codec_roundtrip_rn64 :
+  forall (anorm : N -> N) (cfg : scalarcfg),
+    scalar_cfg_ok cfg = true -> (forall b, (b < ANGLE_360)%N -> anorm b = b) ->
+    forall t v, sval_rep fdiv64 cfg t v ->
+    exists bs, encode_sval fmul64 cfg t v = Some bs /\ List.length bs = calcsize (wire_kinds t) /\
+               decode_sval fdiv64 anorm cfg t bs = Some v.
+Proof.
+  intros anorm cfg Hc Ha. exact (scalar_codec_roundtrip_gen fmul64 fdiv64 anorm cfg Hc (std_model_rn64 _) Ha).
+Qed.
 
 (** The premises hold for the hand copy of the pinned configuration, and a value of every type is representable. *)
 Example scalar_cfg_example : scalar_cfg_ok pinned_scalar = true /\ sizes_match_formats pinned_scalar pinned_cfg = true.
